@@ -100,6 +100,9 @@ func NewUpstreamReverseProxy(config *UpstreamConfig, signer *RequestSigner) (htt
 			for key := range securityHeaders {
 				resp.Header.Del(key)
 			}
+			// Nor may an upstream replace or weaken the Strict-Transport-Security policy that the
+			// requireHTTPS middleware sets for the proxied host.
+			resp.Header.Del("Strict-Transport-Security")
 
 			return nil
 		},
